@@ -151,6 +151,11 @@ def run(rep, tier, root=None):
         want = IO.returns(ix.func(om.name, "fill_cell"), [mask, px, py, sp])[0][1]
         check_equal(rep, "M3.fill-factor", h.fq + ": fills[i] == mask[round(x):round(x+s), round(y):round(y+s)].mean()", st[0][3], want,
                     h.where(), what="fill factor")
+        al = [a for a in I3.alloc_log if a[0] == h.fq]
+        okd = len(al) == 1 and ("dtype" not in al[0][3] or _is_float_dtype(al[0][3]["dtype"]))
+        rep.check(okd, "M3.fill-dtype", h.fq + ": fill factors are stored in a floating-point array",
+                  "fill factors (fractions in [0, 1]) are stored in an array allocated as %s: for boolean / integer masks they are "
+                  "truncated on assignment" % [(a[1], {k_: repr(v_)[:40] for k_, v_ in a[3].items()}) for a in al], h.where())
         rep.check(same_value(st[0][2], idx), "M3.fill-factor", h.fq + ": stored at the sub-aperture's own index",
                   "fill of sub-aperture %s stored at %s" % (nf(idx), nf(st[0][2])), h.where())
         # agreement with the selection cells: x := X*s, y := Y*s, spacing := s, square mask
@@ -167,6 +172,15 @@ def run(rep, tier, root=None):
     rep.functions_analysed.add(k.fq)
     scatter_order(rep, k)
     rep.floor("C14 obligations", len(rep.obligations), 14)
+
+
+def _is_float_dtype(v):
+    from ..interp import ExtRef
+    if isinstance(v, str):
+        return v in ("float", "float64", "f8", "d", "double", "float32", "f4")
+    if isinstance(v, ExtRef):
+        return v.dotted in ("builtins.float", "numpy.float64", "numpy.float32", "numpy.double", "numpy.float_")
+    return False
 
 
 def scatter_order(rep, k):
